@@ -649,8 +649,12 @@ class H5Writer:
                 elif isinstance(entity, IntegerData):
                     out_values = np.round(out_values).astype("int32")
 
-                elif isinstance(entity, TextData) and not isinstance(values[0], bytes):
+                elif isinstance(entity, TextData) and (
+                    len(values) == 0 or not isinstance(values[0], bytes)
+                ):
                     out_values = np.char.encode(values, encoding="utf-8").astype("O")
+                    if len(out_values) == 0:
+                        kwargs["dtype"] = h5py.special_dtype(vlen=str)
 
                 if getattr(entity, "ndv", None) is not None:
                     out_values[np.isnan(out_values)] = entity.ndv
